@@ -46,8 +46,24 @@ FilterMergeLaws == \A l, m \in Lists(Attrs3, 2) : \A p \in Preds :
   /\ Merge(a, a) = a /\ Merge(a, <<>>) = a /\ Merge(<<>>, b) = b
   /\ \A k \in 1..3 : Lookup(Merge(a, b), k) = (IF HasKey(a, k) THEN Lookup(a, k) ELSE Lookup(b, k))
 
+(* iteration agrees with the contents: a fresh iterator driven to the end yields exactly the Set, *)
+(* from position p the unvisited suffix; the end is absorbing; Get agrees with the positions      *)
+IterLaws == \A l \in Lists(Attrs3, MaxLen - 1) :
+  LET c == Canon(l)
+      n == Len(c) IN
+  /\ ItDrain(c, 0) = c
+  /\ \A p \in 0..(n + 1) :
+        /\ ItDrain(c, p) = SubSeq(c, p + 1, n)
+        /\ ItMore(c, p) <=> p < n
+        /\ ItStep(c, p) \in 0..(n + 1) /\ (p = n + 1 => ItStep(c, p) = p)
+        /\ ItNextAdm(c, {p}) = {p < n} /\ ItNextTo(c, {p}, p < n) = {ItStep(c, p)} /\ ItNextTo(c, {p}, ~(p < n)) = {}
+  /\ \A p \in 1..n : Get(c, p - 1) = [ok |-> TRUE, a |-> <<c[p]>>] /\ ItMatches(c, p, [i |-> p - 1, a |-> <<c[p]>>])
+                      /\ ItAttrTo(c, 1..n, [i |-> -1, a |-> <<c[p]>>]) = {p}     \* keys are unique: the attribute names the position
+  /\ ~Get(c, -1).ok /\ ~Get(c, n).ok /\ Len(GetAll(c)) = n + 2
+  /\ ItNextAdm(c, ItAfterSlice(c)) = (IF n = 0 THEN {FALSE} ELSE {TRUE, FALSE})
+
 Init == x = 0
 Next == UNCHANGED x
 Spec == Init /\ [][Next]_x
-Thm == CanonLaws /\ OrderInsensitive /\ FilterMergeLaws
+Thm == CanonLaws /\ OrderInsensitive /\ FilterMergeLaws /\ IterLaws
 =============================================================================
